@@ -129,6 +129,31 @@ def _same_key(a, b):
         return False
 
 
+def rebuild(x):
+    """an equal value in which every dataclass instance, tuple and constant is a new object (hand construction)"""
+    if dataclasses.is_dataclass(x) and not isinstance(x, type):
+        return type(x)(**{f.name: rebuild(getattr(x, f.name)) for f in dataclasses.fields(x)})
+    if type(x) is tuple:
+        return tuple(rebuild(y) for y in x)
+    if type(x) is frozenset:
+        return frozenset(rebuild(y) for y in x)
+    return fresh(x)
+
+
+def program_routes(d):
+    """the same program's data by different routes: {route: CodeData}"""
+    from code_data import CodeData
+
+    out = {"dec": d}
+    out["json"] = CodeData.from_json_data(json.loads(json.dumps(d.to_json_data(), allow_nan=False)))
+    out["hand"] = rebuild(d)
+    out["recode"] = CodeData.from_code(d.to_code())
+    out["norm"] = d.normalize()
+    out["norm_json"] = out["json"].normalize()
+    out["norm_hand"] = rebuild(out["norm"])
+    return out
+
+
 def frozen_to_file(sources, path):
     """every field of every dataclass instance reachable from decoded data refuses assignment and
     deletion and keeps its value; two separately compiled identical sources decode to equal data"""
@@ -137,7 +162,8 @@ def frozen_to_file(sources, path):
     evs = []
     for s in sources:
         e = {"id": "f:%s:%s" % (VER, s["id"]), "kind": "frozen", "ver": VER, "assignable": [], "changed": False,
-             "twice_eq": False, "twice_hash": False, "hashable": False, "exc": ""}
+             "twice_eq": False, "twice_hash": False, "hashable": False, "exc": "",
+             "route_uneq": [], "route_hash_bad": [], "route_code_bad": []}
         try:
             c1 = compile(s["src"], "<v>", s.get("mode", "exec"), dont_inherit=True)
             c2 = compile(s["src"], "<v>", s.get("mode", "exec"), dont_inherit=True)
@@ -149,6 +175,28 @@ def frozen_to_file(sources, path):
             e["twice_eq"] = d1 == d2 and not (d1 != d2)
             e["twice_hash"] = hash(d1) == hash(d2)
             e["hashable"] = True
+            # routes: the routes of one group must give equal data; ANY two equal values (whatever the route, nested code
+            # data included) must hash alike and encode to identical code objects
+            for d0 in [d1] + [x for x in d1.all_code_data()][1:4]:
+                rs = program_routes(d0)
+                for grp in (("dec", "json", "hand", "recode"), ("norm", "norm_json", "norm_hand")):
+                    for r in grp[1:]:
+                        if not (rs[grp[0]] == rs[r]):
+                            e["route_uneq"].append("%s/%s" % (grp[0], r))
+                names = sorted(rs)
+                codes = {}
+                for r in names:
+                    try:
+                        codes[r] = json.dumps(cpy.keyfp(rs[r].to_code()), sort_keys=True)
+                    except BaseException as ex:  # noqa
+                        codes[r] = "exc:" + type(ex).__name__
+                for i_, ra in enumerate(names):
+                    for rb in names[i_ + 1:]:
+                        if rs[ra] == rs[rb]:
+                            if hash(rs[ra]) != hash(rs[rb]):
+                                e["route_hash_bad"].append("%s/%s" % (ra, rb))
+                            if codes[ra] != codes[rb]:
+                                e["route_code_bad"].append("%s/%s" % (ra, rb))
             before = json.dumps(_fpd(d1), sort_keys=True)
             seen = []
 
